@@ -24,7 +24,15 @@ pub fn check_step(c: &StepCase) -> Verdict {
     let seed = match (c.hash.index() + c.levels.len() + c.levels[0].1 as usize) % 5 {
         0 => vec![0u8; n],
         1 => vec![0xffu8; n],
-        _ => gen::expand(0xc05 ^ c.levels.len() as u64, n),
+        _ => {
+            let mut s = gen::expand(0xc05 ^ c.levels.len() as u64, n);
+            if c.levels.len() >= 7 {
+                // behind a parameter list without end marker: seed bytes that look like one
+                s[0] = 0x53;
+                s[1 + c.hash.index()] = 0xff;
+            }
+            s
+        }
     };
     let total: u128 = hss::total_leaves(&c.levels);
     let blob = hss::private_key_blob(&c.levels, c.counter, &seed);
@@ -152,6 +160,13 @@ pub fn run(ctx: &Ctx) {
                 items.push(StepCase { hash: h, levels: s.clone(), counter: total - 1 });
                 items.push(StepCase { hash: h, levels: s.clone(), counter: total - 2 });
             }
+        }
+    }
+    // the longest parameter lists (8 entries: no end marker in the key blob), every hash
+    for h in ALL_HASHES {
+        let s: Vec<Level> = vec![(8, 2); 8];
+        for c in [0u64, 1, 255, 256, 65534, 65535] {
+            items.push(StepCase { hash: h, levels: s.clone(), counter: c });
         }
     }
     // tall-but-affordable keys entered near the end
